@@ -38,6 +38,9 @@ inductive Val where
   | u8 (b : UInt8)
   | bool (b : Bool)
   | bytes (b : Bytes)                       -- a `[]byte` value (the slice's visible content; aliasing is not modelled)
+  | keys (ks : List Bytes)                  -- a `map[string]struct{}` used as a set of keys
+  | bools (l : List Bool)                   -- the answers a callback will give, in call order (see `Stmt.cb`)
+  | ints (l : List Int)                     -- the log of what callbacks were given
   deriving DecidableEq, Repr, Inhabited
 
 inductive BinOp where
@@ -64,6 +67,9 @@ inductive Expr where
   | appendB (a b : Expr)                    -- `append(a, b...)` of byte slices (the new content of the slice)
   | idxB (a i : Expr)                       -- `a[i]` of a byte slice
   | nilB                                    -- `nil` as a byte slice
+  | lenK (a : Expr)                         -- `len(m)` of a key set
+  | inK (m k : Expr)                        -- `_, ok := m[string(k)]`
+  | eqB (a b : Expr)                        -- equality of two byte strings (`string(a) == b`)
   | fcmpK (op : BinOp) (a : Expr) (k : Int) -- `a <op> K`, `a` a float64 (carried as its bits), `K` an untyped integer constant
   | f2i (a : Expr)                          -- `int64(a)`, `a` a float64
   | f2u (a : Expr)                          -- `uint64(a)`, `a` a float64
@@ -91,6 +97,10 @@ inductive Stmt where
       -- `t1, t2 = recv.fn(ptrs…, args…)` (`_` ignores a result); `ptrs` are the pointer-to-struct arguments, by name
   | retCall (recv fn : String) (ptrs : List String) (args : List Expr)   -- `return recv.fn(ptrs…, args…)`
   | rangeIB (iv v : String) (e : Expr) (body : List Stmt)   -- `for iv, v := range e { body }`, `e` a byte slice
+  | cb (target fn : String) (logs : List Expr)
+      -- `target = fn(...)` for a function-valued parameter `fn`: the answer is the next element of the variable
+      -- `fn.results` (a `Val.bools`; not consumed when `target` is `_`), and the integers `logs` evaluate to are
+      -- appended to the variable `fn.log` — what the callback was given
   deriving Repr, Inhabited
 
 structure FunDef where
@@ -276,6 +286,29 @@ def evalE (s : St) : Expr → EOut
     | .val _ => .stuck "append operand"
     | o => o
   | .nilB => .val (.bytes #[])
+  | .lenK a =>
+    match evalE s a with
+    | .val (.keys ks) => .val (.int ks.length)
+    | .val _ => .stuck "len operand"
+    | o => o
+  | .inK m k =>
+    match evalE s m with
+    | .val (.keys ks) =>
+      (match evalE s k with
+       | .val (.bytes b) => .val (.bool (ks.contains b))
+       | .val _ => .stuck "key type"
+       | o => o)
+    | .val _ => .stuck "map operand"
+    | o => o
+  | .eqB a b =>
+    match evalE s a with
+    | .val (.bytes x) =>
+      (match evalE s b with
+       | .val (.bytes y) => .val (.bool (x == y))
+       | .val _ => .stuck "string operand"
+       | o => o)
+    | .val _ => .stuck "string operand"
+    | o => o
   | .fcmpK op a k =>
     match evalE s a with
     | .val (.u64 b) => (match fcmp op b (constAsFloat k) with | some r => .val (.bool r) | none => .stuck "float comparison")
@@ -398,6 +431,15 @@ def copyPtrsBack (callee caller : Env) : List String → List (String × List St
     | none => none
   | _, _ => none
 
+/-- what is logged of a value handed to a callback -/
+def valToInt : Val → Int
+  | .int x => x
+  | .u64 x => x.toNat
+  | .u8 x => x.toNat
+  | .bool b => if b then 1 else 0
+  | .bytes b => b.size
+  | _ => 0
+
 /-- bind returned values to the targets (`_` ignores one) -/
 def assignTargets : List String → List Val → Env → Option Env
   | [], [], e => some e
@@ -518,6 +560,18 @@ def exec1 (funs : String → Option FunDef) : (fuel : Nat) → Stmt → St → O
     | .val (.bytes b) => execRangeI funs fuel iv v 0 b.toList body s
     | .val _ => .stuck "range operand"
     | o => ofE o
+  | fuel, .cb target fn logs, s =>
+    match evalEs s logs with
+    | .error o => ofE o
+    | .ok vs =>
+      let lg := match s.env.get (fn ++ ".log") with | some (.ints l) => l | _ => []
+      let e1 := s.env.set (fn ++ ".log") (.ints (lg ++ vs.map valToInt))
+      if target == "_" then .normal { s with env := e1 }
+      else
+        match s.env.get (fn ++ ".results") with
+        | some (.bools (r :: rest)) => .normal { s with env := (e1.set (fn ++ ".results") (.bools rest)).set target (.bool r) }
+        | some (.bools []) => .stuck "callback answers exhausted"
+        | _ => .stuck "no callback answers"
   | 0, .callAssign targets recv fn ptrs args, s => .diverge
   | fuel + 1, .callAssign targets recv fn ptrs args, s =>
     match callFun funs fuel recv fn ptrs args s with
